@@ -1,0 +1,10 @@
+//go:build verif
+
+// Export shims for the verification harness under /verif (build tag "verif" only), property C10.
+package model
+
+// VerifInitAuthenticationPolicies exposes initAuthenticationPolicies (sort by creation time +
+// addPeerAuthentication over the environment's config store).
+func VerifInitAuthenticationPolicies(env *Environment) *AuthenticationPolicies {
+	return initAuthenticationPolicies(env)
+}
